@@ -190,6 +190,8 @@ func (sn *verifControlBadNode[T, G]) process() {
 	sn.inputChangedSinceLastProcess = false
 }
 
+func (sn verifControlBadNode[T, G]) Version() int { return sn.version }
+
 func (sn *verifControlBadNode[T, G]) verifControlTouch() {
 	sn.version++ // NODE-1: version written outside process
 }
@@ -273,6 +275,8 @@ func (sn verifControlGoodNode[T, G]) verifControlDeps() []NodeDependency {
 	sort.Slice(rest, func(i, j int) bool { return rest[i].Name() < rest[j].Name() })
 	return append(output, rest...)
 }
+
+func (sn verifControlGoodNode[T, G]) Version() int { return sn.version }
 
 func (sn *verifControlGoodNode[T, G]) verifControlBump() { sn.version = sn.version + 1 }
 
